@@ -11,4 +11,5 @@ package envelope
 
 //@ func SanitizeTargetArtifact
 //@ props C07 C18
+//@ ensures[C07.payload-exact] result == ocispec.Descriptor{MediaType: targetArtifact.MediaType, Digest: targetArtifact.Digest, Size: targetArtifact.Size, Annotations: targetArtifact.Annotations}
 //@ ensures[C07.payload,C18.payload] result.MediaType == targetArtifact.MediaType && result.Digest == targetArtifact.Digest && result.Size == targetArtifact.Size && result.Annotations == targetArtifact.Annotations && len(result.URLs) == 0 && len(result.Data) == 0 && result.Platform == nil && result.ArtifactType == ""
